@@ -420,7 +420,7 @@ pub fn run(a: &Args) -> i32 {
         if c.recursive_fragment {
             // `Serialize` on a recursive flattened fragment is a known limitation of serde (E0275);
             // keep a few such cases to exercise the finding, drop `Serialize` from the others
-            if !is_corpus && !rng.chance(15) {
+            if !is_corpus {
                 if let Some(d) = &c.opts.response_derives {
                     if d.contains("Serialize") {
                         c.opts.response_derives = Some("Debug,PartialEq".into());
@@ -440,6 +440,12 @@ pub fn run(a: &Args) -> i32 {
         }
         let (tokens, modules) = match (&res.real, res.modules) {
             (RealOutcome::Ok(t), Some(m)) => (t.clone(), m),
+            // the generator succeeded but the extractor cannot read a construct of the emitted code: a broken tie (the
+            // IR-based oracles cannot run), not a refusal of the input
+            (RealOutcome::Ok(_), None) => {
+                rep.disagree(json!({"what": "the emitted tokens could not be read into the IR", "file": "c02.rs"}));
+                continue;
+            }
             (other, _) => {
                 rep.count(&format!("generation:{}", other.kind()));
                 rep.case(None);
